@@ -43,7 +43,7 @@ SilentPublish(p) == /\ l <= Len(TraceLog) /\ E.ev # "UpdateOffsets" /\ UNCHANGED
 TAck == Cur("Ack") /\ Ack(E.p) /\ req[E.p].base = E.base /\ req[E.p].cnt = E.cnt /\ req[E.p].id[2] = E.k
 TErr == Cur("Err") /\ pc[E.p] = "err" /\ Err(E.p)
 \* a malformed batch is refused before AppendBatch: no Append line, only the error reply
-TRejected == /\ Cur("Err") /\ pc[E.p] = "idle" /\ up /\ FixValidate /\ E.kind # "ok" /\ sent[E.p] + 1 = E.k
+TRejected == /\ Cur("Err") /\ pc[E.p] = "idle" /\ up /\ FixValidate /\ E.kind \in {"neglod", "concat"} /\ sent[E.p] + 1 = E.k
              /\ sent' = [sent EXCEPT ![E.p] = @ + 1]
              /\ UNCHANGED <<mem, up, rfail, restarted, s3seg, s3idx, storeNext, pc, stage, req, art, segUp, idxUp, pubVal, faults, crashes, acked, hwReg, nextReg, hwMax, lost, hist>>
 TCrash == Cur("Crash") /\ Crash
